@@ -54,7 +54,7 @@ def h_spatial(ctx, rank, N, F, topo):
 
 
 # ---------------------------------------------------------------- gaussian blurring
-def h_blur(ctx, d, ngrids, rank, F=1, N=2, free=3, moving=False):
+def h_blur(ctx, d, ngrids, rank, F=1, N=2, free=3, moving=False, ppp=None):
     ctx.covers(FUNCS[1], FUNCS[3])
     cg = ctx.repo("PyMatterSim.utils.coarse_graining")
     ru = ctx.repo("PyMatterSim.reader.reader_utils")
@@ -93,9 +93,9 @@ def h_blur(ctx, d, ngrids, rank, F=1, N=2, free=3, moving=False):
         for flat, idx in enumerate(product(*[range(n) for n in ngrids])):
             if flat >= free:
                 for i in range(N):
-                    r2 = sum((axes0[a][idx[a]] - poss[f][i][a]) ** 2 for a in range(d))
+                    r2 = C.norm2(C.min_image(ctx, [axes0[a][idx[a]] - poss[f][i][a] for a in range(d)], rows, ppp or [0] * d))
                     ctx.assume(O.lt(r2, cut * cut))
-    gpos, gval = cg.gaussian_blurring(S, cond, np.array(ngrids), sigma=sigma, ppp=np.array([0] * d), gaussian_cut=cut)
+    gpos, gval = cg.gaussian_blurring(S, cond, np.array(ngrids), sigma=sigma, ppp=np.array(ppp or [0] * d), gaussian_cut=cut)
     ctx.oblige("grid size", tuple(gpos.shape) == (F, G, d))
     ctx.output("gpos", gpos)
     ctx.output("gval", gval)
@@ -109,7 +109,7 @@ def h_blur(ctx, d, ngrids, rank, F=1, N=2, free=3, moving=False):
             for cc in comps:
                 tot = 0
                 for i in range(N):
-                    r2 = sum((pt[a] - poss[f][i][a]) ** 2 for a in range(d))
+                    r2 = C.norm2(C.min_image(ctx, [pt[a] - poss[f][i][a] for a in range(d)], rows, ppp or [0] * d))
                     inside = O.lt(r2, cut * cut)
                     if sym:
                         from symx import scalar as S_
@@ -341,6 +341,8 @@ def cfg_blur(tier, seed):
     out.append(dict(d=3, ngrids=[2, 2, 3], rank=0, N=1))
     out.append(dict(d=3, ngrids=[1, 3, 2], rank=0, N=1))
     out.append(dict(d=2, ngrids=[2, 2], rank=0, F=2, N=1, free=1, moving=True))      # second frame with a shifted box origin
+    out.append(dict(d=2, ngrids=[2, 2], rank=0, N=1, free=1, ppp=[1, 1]))               # periodic distances (minimum image)
+    out.append(dict(d=2, ngrids=[2, 1], rank=1, N=1, free=1, ppp=[0, 1]))
     if tier == "thorough":
         out.append(dict(d=3, ngrids=[2, 3, 2], rank=1, N=1))
         out.append(dict(d=2, ngrids=[4, 2], rank=0, F=2, N=1))
